@@ -41,6 +41,8 @@ func profile() *vtx.Profile {
 			for _, l := range refreshL {
 				ev = append(ev, vtx.Event{K: "refresh", C: "c1", L: l})
 			}
+			// Allocate refused by the operator's relay address generator / quota handler: nothing may exist or linger afterwards
+			ev = append(ev, vtx.Event{K: "alloc", C: "c1", L: 1, Fail: "gen"}, vtx.Event{K: "alloc", C: "c1", L: 2, Fail: "quota"})
 			// refused Refresh requests (address family mismatch): must change nothing
 			ev = append(ev, vtx.Event{K: "refresh", C: "c1", L: 0, Fam: 6}, vtx.Event{K: "refresh", C: "c1", L: 3000, Fam: 6})
 			ev = append(ev, vtx.Event{K: "perm", C: "c1", Peers: []string{"A"}, L: -1},
